@@ -51,6 +51,8 @@ def run(ctx):
                         "model code draws its own random numbers from model.random (it is 'the same model code' of the statement)",
                         "real OS scheduling / interpreter state is sampled by the listed perturbations, not enumerated"]
     ctx.model_check(MC, "Determinism_C07.cfg")
+    if not q:
+        ctx.model_check(MC, "Determinism_C07_thorough.cfg")      # four draws per copy: 768 000 states
     ctx.negative_control(MC, "Determinism_C07_neg_global.cfg", "C07_SameTrajectory")
     scheds = schedules(ctx, "Determinism_MBT.cfg")
     if q:
